@@ -35,9 +35,19 @@ TECHNIQUE = "exhaustive enumeration of lattice kinds x side lengths x boundary x
 def configs(tier):
     T = tier == "thorough"
     out = []
-    for n in range(2, (33 if T else 9)):
+    for n in range(2, (66 if T else 34)):
         out.append(dict(kind="chain", sides=[n], open_x=False))
     smax = 10 if T else 6
+    # long thin shapes: one side beyond smax (crossing 8, 10, 16), the other tiny
+    for k in (range(smax + 1, 18) if not T else range(smax + 1, 34)):
+        for w in (2, 3):
+            for sides in ([k, w], [w, k]):
+                out.append(dict(kind="grid2d", sides=sides, open_x=False))
+                out.append(dict(kind="triangular", sides=sides, open_x=False))
+                out.append(dict(kind="triangular", sides=sides, open_x=True))
+    for k in ((5, 6, 7, 8, 9, 10, 11, 12) if not T else range(7, 18)):
+        for sides in ([k, 2, 2], [2, k, 2], [2, 2, k]):
+            out.append(dict(kind="cubic", sides=sides, open_x=False))
     for lx in range(2, smax + 1):
         for ly in range(2, smax + 1):
             out.append(dict(kind="grid2d", sides=[lx, ly], open_x=False))
@@ -338,8 +348,9 @@ def job_distinct(j):
 
 def run(ctx):
     cfgs = configs(ctx.tier)
-    ctx.rule = ("lattice kinds {chain n=2..8 (32 thorough); rectangular grid and triangular grid (periodic and open_x) for every ordered "
-                "side pair in 2..6 (10); cubic grid for every side triple in 2..4 (6)} x every site; per lattice: construction, "
+    ctx.rule = ("lattice kinds {chain n=2..33 (65 thorough); rectangular grid and triangular grid (periodic and open_x) for every ordered "
+                "side pair in 2..6 (10) plus the long thin shapes k x {2,3} and {2,3} x k for k up to 17 (33); cubic grid for every side "
+                "triple in 2..4 (6) plus k x 2 x 2 in every orientation for k = 5..12 (7..17)} x every site; per lattice: construction, "
                 "site numbering both ways, neighbour lists of every site, adjacency matrix, equality/hash, flatten->unflatten and a real "
                 "jax.jit argument boundary; all ordered pairs of lattices for inequality. A state is a lattice or a (lattice, site); all are "
                 "distinct; non-trivial = every one (each site's neighbour list is compared)")
